@@ -204,6 +204,7 @@ type c18node struct {
 	addrFault  bool      // the node's address-resolution inputs currently yield an error
 	faultUntil time.Time // restore them once the fake clock has reached this instant
 	goneEarly  bool      // refresh goroutine ended although Done is open (noted once)
+	manual     bool      // the driver synchronises this node by hand (slow-publish family)
 	doneClosed bool
 	expected   int // Publish calls the goroutine must have made
 	loopsDue   int // select (re-)entries the goroutine must have made
@@ -370,7 +371,7 @@ func (w *c18world) start(slot int) {
 func (w *c18world) settle() {
 	now := w.clock.Now()
 	for _, n := range w.nodes {
-		if n.unsynced {
+		if n.unsynced || n.manual {
 			continue
 		}
 		if !n.doneClosed && n.clk.goroutineEnded() {
@@ -394,6 +395,9 @@ func (w *c18world) settle() {
 		if !c18Poll(func() bool {
 			if !n.doneClosed && n.clk.goroutineEnded() {
 				return true
+			}
+			if w.bus.Holding(n.ep.idx) && w.bus.Entered(n.ep.idx) >= want {
+				return true // the publication is parked inside a stalled Publish
 			}
 			_, l, _ := n.clk.state()
 			return w.bus.Attempts(n.ep.idx) >= want && (n.doneClosed || l >= loops)
@@ -930,6 +934,129 @@ func c18crashPhase(run *verifkit.Run, i int, rng *verifkit.Rand) {
 	}
 }
 
+// ---- family: graceful stop while a registration is stuck in a slow Publish ------------
+
+// c18slowPublishStop: a calm cluster with immediate in-order delivery. The
+// victim's next periodic Register parks inside PubSub.Publish (a stalled Redis
+// PUBLISH, at most PeerTimeout long); while it is parked the node is stopped
+// gracefully (Done closed at instant S). After h <= PeerTimeout of virtual time
+// the publish is released, everything the victim published is delivered in the
+// order it reached the bus. Membership stopped changing at S, so from
+// S + PeerEntryTimeout + one (largest) refresh interval on no live node may list
+// the stopped node. (Unchanged code: the loop goroutine is the node's only
+// publisher, so its Unregister follows the released Register and removes the
+// entry at S+h.)
+func c18slowPublishStop(run *verifkit.Run, i int, rng *verifkit.Rand) {
+	t0 := time.Date(2024, 5, 1, 12, 0, 0, 0, time.UTC)
+	w := &c18world{run: run, rng: rng, clock: clockwork.NewFakeClockAt(t0), t0: t0, bus: newE7Bus(), lastUnreg: map[[2]int]bool{}}
+	nslots := rng.Range(2, 4)
+	w.slots = make([]*c18node, nslots)
+	for s := 0; s < nslots; s++ {
+		w.addrs = append(w.addrs, fmt.Sprintf("http://node-%c.refinery:8081", 'a'+s))
+	}
+	defer func() {
+		for _, n := range w.nodes {
+			w.bus.Release(n.ep.idx)
+			w.closeDone(n)
+		}
+	}()
+	step := func(d time.Duration) {
+		w.advance(d)
+		w.bus.DeliverAll(nil, 0)
+	}
+	for s := 0; s < nslots; s++ {
+		w.start(s)
+		if w.aborted {
+			return
+		}
+		step(time.Duration(rng.Range(1, 3500)) * time.Millisecond)
+	}
+	for calm := time.Duration(rng.Range(4000, 12000)) * time.Millisecond; calm > 0; {
+		d := time.Duration(rng.Range(50, 500)) * time.Millisecond
+		step(d)
+		calm -= d
+	}
+	live := w.live()
+	victim := live[rng.Intn(len(live))]
+	ep := victim.ep.idx
+	peerTimeout := victim.cfg.GetPeerTimeout()
+	// 1. the victim's next registration stalls
+	w.bus.HoldNext(ep)
+	w.note("next-publish-of-node-will-stall", victim, "")
+	for k := 0; !w.bus.Holding(ep); k++ {
+		if k > 200 || w.aborted {
+			run.Inconclusive("harness: the victim never reached its next registration publish")
+			return
+		}
+		step(time.Duration(rng.Range(50, 400)) * time.Millisecond)
+	}
+	// 2. ... and while it hangs the node is stopped gracefully, somewhat later
+	if rng.Bool() {
+		step(time.Duration(rng.Range(1, 800)) * time.Millisecond)
+	}
+	before := w.bus.Attempts(ep)
+	victim.manual = true
+	victim.doneClosed = true
+	victim.state = "stopped"
+	close(victim.done)
+	stopAt := w.clock.Now()
+	w.kinds.WriteByte('G')
+	w.note("graceful-stop-while-registration-publish-is-stalled", victim, "")
+	// 3. the publish stays stalled for h <= PeerTimeout (the context deadline Refinery gives it)
+	h := time.Duration(rng.Range(200, int(peerTimeout/time.Millisecond))) * time.Millisecond
+	if rng.Bool() {
+		h = peerTimeout - time.Duration(rng.Range(0, 1200))*time.Millisecond
+	}
+	for w.clock.Now().Before(stopAt.Add(h)) {
+		d := time.Duration(rng.Range(50, 400)) * time.Millisecond
+		if rem := stopAt.Add(h).Sub(w.clock.Now()); d > rem {
+			d = rem
+		}
+		step(d)
+	}
+	// 4. the stalled publish completes; the stopping node finishes (Register and Unregister both on the bus)
+	w.bus.Release(ep)
+	w.note("stalled-publish-released", victim, fmt.Sprintf("%v after the stop", h))
+	if !c18Poll(func() bool { return w.bus.Attempts(ep) >= before+2 && victim.clk.goroutineEnded() }) {
+		run.Inconclusive("harness: the stopping node did not finish its Register and Unregister within the real-time bound")
+		return
+	}
+	w.bus.DeliverAll(nil, 0)
+	// 5. within the bound counted from the stop nobody lists it any more
+	bound := stopAt.Add(PeerEntryTimeout + c18MaxRefresh)
+	end := stopAt.Add(2 * (PeerEntryTimeout + c18MaxRefresh))
+	ok := true
+	for w.clock.Now().Before(end) && ok {
+		d := time.Duration(rng.Range(50, 300)) * time.Millisecond
+		if now := w.clock.Now(); now.Before(bound) && now.Add(d).After(bound) {
+			d = bound.Sub(now)
+		}
+		step(d)
+		if w.clock.Now().Before(bound) {
+			continue
+		}
+		for _, n := range w.live() {
+			got, err := n.p.GetPeers()
+			if err != nil {
+				run.Inconclusive("harness: GetPeers: " + err.Error())
+				return
+			}
+			ok = w.compare("slow-publish-stop", n, got, "GetPeers") && ok
+			run.Count("getpeers_checked_after_slow_publish_stop", 1)
+		}
+	}
+	for _, n := range w.nodes {
+		if n.unsynced && ok {
+			run.Inconclusive("a node's refresh goroutine did not publish within the real-time bound; history not as scripted")
+		}
+	}
+	run.Count("slow_publish_stop_cases", 1)
+	run.Nontrivial(fmt.Sprintf("slow-publish-stop n=%d stall=%ds", nslots, int(h/time.Second)))
+	if i < 1 {
+		run.Sample(map[string]any{"family": "slow-publish-stop", "events": w.log, "addresses": w.addrs})
+	}
+}
+
 // ---- codec ---------------------------------------------------------------------------
 
 func c18String(rng *verifkit.Rand, kind string) string {
@@ -1015,12 +1142,13 @@ func c18codec(run *verifkit.Run, i int, rng *verifkit.Rand) {
 func TestVerif_C18(t *testing.T) {
 	run := verifkit.Start(t, "C18", "membership")
 	defer run.Finish()
-	run.Rule("membership: seeded histories over 2..5 node addresses (IPv4 / bracketed IPv6 / host names) of real RedisPubsubPeers on one FakeClock over the E7 chaos pubsub: 12..45 steps of {start, graceful stop, crash, restart under a new instance id, hold a node's inbound messages}, address-resolution outages of a live node (its config yields an unparsable listen address / a missing interface) covering its next registration tick, per-node scripted Publish errors (probability 0/0.15/0.35/0.6 per call, plus outages of 2-4 consecutive calls) while faults are on, clock steps of 0.1..1 s (15% aimed at an entry's expiry instant +-1ns), per-step delivery of a random subset of the queued messages in random order with duplicates; refresh jitter per node chosen by the PRNG in [0,20%); then faults stop, backlog delivered in random order, clock advanced PeerEntryTimeout+max refresh interval with immediate delivery, GetPeers() of every live node compared with the live set, again at every step of a further 2x(PeerEntryTimeout+max refresh interval), then the list read by a change-callback consumer. Non-trivial = history with a graceful stop or crash and at least one out-of-order delivery; distinct = (event-kind sequence, live count, out-of-order/duplicate/late-register buckets). crash-phase: 2..4 nodes started at staggered instants, calm operation with immediate delivery, one node (in 30% two in sequence) crashed at a ms-grained instant C, clock stepped 50..300 ms, from C+PeerEntryTimeout+max refresh interval to twice that GetPeers() of every live node compared with the live set at every step. codec: marshal->unmarshal over generated address/id strings (realistic URLs and hex ids, empty, commas, leading R/U, control bytes, non-UTF8, long); non-trivial = a field is empty or contains a comma")
+	run.Rule("membership: seeded histories over 2..5 node addresses (IPv4 / bracketed IPv6 / host names) of real RedisPubsubPeers on one FakeClock over the E7 chaos pubsub: 12..45 steps of {start, graceful stop, crash, restart under a new instance id, hold a node's inbound messages}, address-resolution outages of a live node (its config yields an unparsable listen address / a missing interface) covering its next registration tick, per-node scripted Publish errors (probability 0/0.15/0.35/0.6 per call, plus outages of 2-4 consecutive calls) while faults are on, clock steps of 0.1..1 s (15% aimed at an entry's expiry instant +-1ns), per-step delivery of a random subset of the queued messages in random order with duplicates; refresh jitter per node chosen by the PRNG in [0,20%); then faults stop, backlog delivered in random order, clock advanced PeerEntryTimeout+max refresh interval with immediate delivery, GetPeers() of every live node compared with the live set, again at every step of a further 2x(PeerEntryTimeout+max refresh interval), then the list read by a change-callback consumer. Non-trivial = history with a graceful stop or crash and at least one out-of-order delivery; distinct = (event-kind sequence, live count, out-of-order/duplicate/late-register buckets). crash-phase: 2..4 nodes started at staggered instants, calm operation with immediate delivery, one node (in 30% two in sequence) crashed at a ms-grained instant C, clock stepped 50..300 ms, from C+PeerEntryTimeout+max refresh interval to twice that GetPeers() of every live node compared with the live set at every step. slow-publish-stop: calm cluster, the victim's next Register parks inside Publish, the node is stopped gracefully while it is parked, released 0.2..PeerTimeout later, everything delivered in bus order, GetPeers() of every live node compared with the live set at every step from stop+PeerEntryTimeout+max refresh interval to twice that. codec: marshal->unmarshal over generated address/id strings (realistic URLs and hex ids, empty, commas, leading R/U, control bytes, non-UTF8, long); non-trivial = a field is empty or contains a comma")
 	run.Assume("the go-redis transport is replaced by the E7 chaos pubsub (no Redis server in the sandbox); deliveries to one node are serialised")
 	run.Assume("clockwork.FakeClock is the only time source: the node's TTL map is moved onto it right after Start and the own entry re-stamped; the refresh jitter comes from the check's PRNG instead of math/rand")
 	run.Assume("live and publishing = started, Done not closed, not silenced; convergence is measured from the moment faults stop and the backlog has been delivered")
 
 	run.Cases("membership", run.N(300, 60000), func(i int, rng *verifkit.Rand) { c18membership(run, i, rng) })
+	run.Cases("slow-publish-stop", run.N(120, 10000), func(i int, rng *verifkit.Rand) { c18slowPublishStop(run, i, rng) })
 	run.Cases("crash-phase", run.N(200, 15000), func(i int, rng *verifkit.Rand) { c18crashPhase(run, i, rng) })
 	run.Cases("codec", run.N(4000, 400000), func(i int, rng *verifkit.Rand) { c18codec(run, i, rng) })
 }
